@@ -146,7 +146,6 @@ static Case decode(vp::Dice &d)
         if (d.chance(1, 8)) m.a = m.d; // self-aliasing
         m.x = posOf(d);
         m.y = posOf(d);
-        if (m.op == "rawappend" && (m.x == 0 || m.x == NPOS || m.x > 300) && !d.chance(1, 6)) m.x = d.range(1, 40); // known findings: keep them rare
         if (m.op == "new" || m.op == "newstd" || m.op == "newc" || m.op == "assignc" || m.op == "appendc" || m.op == "rawappend" || m.op == "cmpc")
             m.s = textOf(d);
         else if (m.op == "push" || m.op == "setAt" || m.op == "find" || m.op == "rfind" || m.op == "findset")
@@ -244,7 +243,7 @@ static vp::Verdict check(const Case &c, vp::Ctx &ctx)
     World w;
     std::set<std::string> labels;
     bool sharedWrite = false;
-    bool zeroRawAppend = false; // known finding: a zero-size rawAppendStart/Finish pair may truncate a shared blob's used size
+    bool zeroRawAppend = false; // a zero-size rawAppendStart/Finish pair happened (regression class, see replays/C48)
     int step = 0;
     static const CharacterSet none("none", "");
 
@@ -452,8 +451,6 @@ static vp::Verdict check(const Case &c, vp::Ctx &ctx)
         labels.insert(m.op);
         if (!threw && wantThrow && m.op == "rawappend" && (m.x == NPOS ? 0xffffffffULL : static_cast<uint64_t>(m.x)) + MD.size() >= 0xffffffffULL)
             return vp::fail("sbuf:rawAppendStart-size-plus-length-wraps-no-throw", where + " anticipatedSize=" + std::to_string(m.x) + " length=" + std::to_string(MD.size()));
-        if (zeroRawAppend && (threw != wantThrow || !bad.empty()))
-            return vp::fail("sbuf:corruption-after-zero-size-rawAppend", where + (threw != wantThrow ? " unexpected/missing throw" : " " + bad));
         if (threw != wantThrow)
             return vp::fail(threw ? "sbuf:unexpected-throw:" + m.op : "sbuf:missing-throw:" + m.op, where);
         if (threw) labels.insert("throws");
@@ -461,13 +458,14 @@ static vp::Verdict check(const Case &c, vp::Ctx &ctx)
         const std::string mm = w.mismatch();
         if (!mm.empty() && (m.op == "chop" || m.op == "substr") && m.x >= 0 && m.y >= 0 && m.x + m.y > 0xffffffffLL)
             return vp::fail("sbuf:chop-substr-pos-plus-n-wraps-32bit", where + " " + mm);
-        if (!mm.empty() && zeroRawAppend)
-            return vp::fail("sbuf:corruption-after-zero-size-rawAppend", where + " " + mm);
+        // (fixed in /repo: a zero-size rawAppendStart/Finish pair on a shared blob used to truncate the blob's used
+        //  size; the class is exercised like any other now and only mentioned in the detail text)
         if (!mm.empty()) {
             // classify: was the damaged slot the target of the operation or a bystander?
             const bool target = mm.rfind("slot " + std::to_string(d) + " ", 0) == 0 || (m.op == "consume" && mm.rfind("slot " + std::to_string(a) + " ", 0) == 0) ||
                                 (m.op == "move" && mm.rfind("slot " + std::to_string(a) + " ", 0) == 0);
-            return vp::fail(std::string(target ? "sbuf:wrong-result:" : "sbuf:bystander-changed:") + m.op, where + " " + mm);
+            return vp::fail(std::string(target ? "sbuf:wrong-result:" : "sbuf:bystander-changed:") + m.op,
+                            where + " " + mm + (zeroRawAppend ? " (a zero-size rawAppend happened earlier in this sequence)" : ""));
         }
     }
     for (const auto &l : labels) ctx.label(l);
